@@ -613,6 +613,169 @@ theorem validLines_pre (pre rest : List Name) (hpre : ∀ l ∈ pre, startsWithT
     simp only [Bool.false_eq_true, if_false]
     exact ih (fun l hl => hpre l (by simp [hl]))
 
+/-! ## CSV text: fields ↔ lines -/
+
+theorem splitOn_ne_nil (c : Char) (s : Name) : splitOn c s ≠ [] := by
+  induction s with
+  | nil => simp [splitOn]
+  | cons x xs ih =>
+    rw [splitOn]
+    cases h : splitOn c xs with
+    | nil => simp
+    | cons f fs => simp only; split <;> simp
+
+theorem splitOn_nocomma (f : Name) (h : ',' ∉ f) : splitOn ',' f = [f] := by
+  induction f with
+  | nil => rfl
+  | cons x xs ih =>
+    have hx : x ≠ ',' := fun e => h (by simp [e])
+    have hxs : ',' ∉ xs := fun e => h (by simp [e])
+    rw [splitOn, ih hxs]
+    simp [hx]
+
+theorem splitOn_append_comma (f rest : Name) (h : ',' ∉ f) :
+    splitOn ',' (f ++ ',' :: rest) = f :: splitOn ',' rest := by
+  induction f with
+  | nil =>
+    simp only [List.nil_append]
+    rw [splitOn]
+    cases hr : splitOn ',' rest with
+    | nil => exact absurd hr (splitOn_ne_nil _ _)
+    | cons g gs => simp
+  | cons x xs ih =>
+    have hx : x ≠ ',' := fun e => h (by simp [e])
+    have hxs : ',' ∉ xs := fun e => h (by simp [e])
+    rw [List.cons_append, splitOn, ih hxs]
+    simp [hx]
+
+/-- splitting the joined line gives the fields back -/
+theorem splitOn_joinFields (fs : List Name) (hne : fs ≠ []) (h : ∀ f ∈ fs, ',' ∉ f) :
+    splitOn ',' (joinFields fs) = fs := by
+  induction fs with
+  | nil => exact absurd rfl hne
+  | cons f rest ih =>
+    cases rest with
+    | nil => simp only [joinFields]; exact splitOn_nocomma f (h f (by simp))
+    | cons g gs =>
+      simp only [joinFields]
+      rw [splitOn_append_comma f _ (h f (by simp)), ih (by simp) (fun x hx => h x (by simp [hx]))]
+
+theorem count_joinFields (fs : List Name) (hne : fs ≠ []) (h : ∀ f ∈ fs, ',' ∉ f) :
+    countCommas (joinFields fs) = fs.length - 1 := by
+  induction fs with
+  | nil => exact absurd rfl hne
+  | cons f rest ih =>
+    cases rest with
+    | nil =>
+      simp only [joinFields, countCommas, List.length_singleton]
+      exact List.count_eq_zero.mpr (h f (by simp))
+    | cons g gs =>
+      have := ih (by simp) (fun x hx => h x (by simp [hx]))
+      simp only [joinFields, countCommas] at this ⊢
+      rw [List.count_append, List.count_cons_self, this, List.count_eq_zero.mpr (h f (by simp))]
+      simp
+
+/-- white space at the ends of a line as genfromtxt's splitter strips it -/
+def lineWs (c : Char) : Bool := c = ' ' || c = '\r' || c = '\n'
+
+theorem dropWhile_all {p : Char → Bool} (e : Name) (h : ∀ c ∈ e, p c = true) (rest : Name) :
+    (e ++ rest).dropWhile p = rest.dropWhile p := by
+  induction e with
+  | nil => rfl
+  | cons x xs ih =>
+    rw [List.cons_append, List.dropWhile_cons_of_pos (h x (by simp))]
+    exact ih (fun c hc => h c (by simp [hc]))
+
+/-- stripping a line that starts and ends with a non-blank character, followed by an all-blank
+terminator residue, removes exactly the residue -/
+theorem stripChars_line (p : Char → Bool) (x e : Name) (hx : x ≠ [])
+    (hfirst : p (x.head hx) = false) (hlast : p (x.getLast hx) = false) (he : ∀ c ∈ e, p c = true) :
+    stripChars p (x ++ e) = x := by
+  unfold stripChars
+  have h1 : (x ++ e).dropWhile p = x ++ e := by
+    cases x with
+    | nil => exact absurd rfl hx
+    | cons a as =>
+      simp only [List.head_cons] at hfirst
+      rw [List.cons_append, List.dropWhile_cons_of_neg (by simp [hfirst])]
+  rw [h1, List.reverse_append, dropWhile_all e.reverse (fun c hc => he c (List.mem_reverse.mp hc))]
+  have h2 : x.reverse.dropWhile p = x.reverse := by
+    have hr : x.reverse ≠ [] := by simpa using hx
+    have : x.reverse.head hr = x.getLast hx := by simp [List.head_reverse]
+    cases hxr : x.reverse with
+    | nil => exact absurd hxr hr
+    | cons a as =>
+      have ha : a = x.getLast hx := by
+        rw [← this]; simp [hxr]
+      rw [List.dropWhile_cons_of_neg (by rw [ha]; simp [hlast])]
+  rw [h2, List.reverse_reverse]
+
+/-- a per-line CSV export that `csv_valid_lines` + `genfromtxt` read field by field -/
+structure CsvWF (c : CsvFile) : Prop where
+  eol_blank : ∀ ch ∈ c.eol, lineWs ch = true
+  header_ne : c.header ≠ []
+  nocomma : ∀ fs ∈ c.header :: c.rows, ∀ f ∈ fs, ',' ∉ f
+  width : ∀ r ∈ c.rows, r.length = c.header.length
+  ends : ∀ fs ∈ c.header :: c.rows, ∃ h : joinFields fs ≠ [],
+    lineWs ((joinFields fs).head h) = false ∧ lineWs ((joinFields fs).getLast h) = false
+  pre : ∀ l ∈ c.pre, startsWithTime (l ++ c.eol) = false
+  head : startsWithTime (joinFields c.header ++ c.eol) = true
+  foot : ∀ l ∈ c.foot, countCommas (l ++ c.eol) ≠ c.header.length - 1 ∧ startsWithTime (l ++ c.eol) = false
+  parse : ∀ r ∈ c.rows, ∀ f ∈ r, ∃ q, parseDec f = some q
+
+theorem eol_count {c : CsvFile} (W : CsvWF c) : countCommas c.eol = 0 := by
+  unfold countCommas
+  apply List.count_eq_zero.mpr
+  intro h
+  have := W.eol_blank ',' h
+  simp [lineWs] at this
+
+theorem strip_line {c : CsvFile} (W : CsvWF c) (fs : List Name) (hfs : fs ∈ c.header :: c.rows) :
+    stripChars (fun ch => ch = ' ' || ch = '\r' || ch = '\n') (joinFields fs ++ c.eol) = joinFields fs := by
+  obtain ⟨hne, h1, h2⟩ := W.ends fs hfs
+  exact stripChars_line _ _ _ hne h1 h2 W.eol_blank
+
+theorem fields_line {c : CsvFile} (W : CsvWF c) (fs : List Name) (hfs : fs ∈ c.header :: c.rows) :
+    fields (joinFields fs ++ c.eol) = fs := by
+  unfold fields
+  rw [strip_line W fs hfs]
+  have hne : fs ≠ [] := by
+    rcases List.mem_cons.mp hfs with rfl | h
+    · exact W.header_ne
+    · intro e
+      have := W.width fs h
+      rw [e] at this
+      exact W.header_ne (List.length_eq_zero_iff.mp this.symm)
+  exact splitOn_joinFields fs hne (W.nocomma fs hfs)
+
+theorem count_line {c : CsvFile} (W : CsvWF c) (fs : List Name) (hfs : fs ∈ c.header :: c.rows) :
+    countCommas (joinFields fs ++ c.eol) = c.header.length - 1 := by
+  have hne : fs ≠ [] := by
+    rcases List.mem_cons.mp hfs with rfl | h
+    · exact W.header_ne
+    · intro e
+      have := W.width fs h
+      rw [e] at this
+      exact W.header_ne (List.length_eq_zero_iff.mp this.symm)
+  have hl : fs.length = c.header.length := by
+    rcases List.mem_cons.mp hfs with rfl | h
+    · rfl
+    · exact W.width fs h
+  have h1 := count_joinFields fs hne (W.nocomma fs hfs)
+  have h2 := eol_count W
+  unfold countCommas at *
+  rw [List.count_append, h1, h2, hl]; simp
+
+theorem allSome_parse (r : List Name) (h : ∀ f ∈ r, ∃ q, parseDec f = some q) :
+    allSome (r.map parseDec) = some (r.filterMap parseDec) ∧ (r.filterMap parseDec).length = r.length := by
+  induction r with
+  | nil => exact ⟨rfl, rfl⟩
+  | cons f fs ih =>
+    obtain ⟨q, hq⟩ := h f (by simp)
+    have := ih (fun g hg => h g (by simp [hg]))
+    rw [List.map_cons, List.filterMap_cons, hq]
+    simp only [allSome, this.1, Option.map_some, List.length_cons, this.2, and_self]
+
 /-! ## mass table -/
 
 def updMass (msms : Bool) (m : MassInfo) (a : XAdd) : MassInfo :=
@@ -643,5 +806,27 @@ theorem foldl_applyAdd (msms : Bool) (rows : List XAdd) (tbl : List MassInfo) :
       cases hf : List.find? (fun x => decide (x.index = m.id)) rs.reverse with
       | none => simp [this]
       | some b => simp
+
+/-! ## element names from the method file -/
+
+def elemLe (a b : AcqElement) : Bool := decide (a.mz < b.mz ∨ (a.mz = b.mz ∧ a.selected ≤ b.selected))
+
+theorem sortElements_eq (es : List AcqElement) : sortElements es = es.mergeSort elemLe := rfl
+
+theorem elemLe_trans (a b c : AcqElement) : elemLe a b = true → elemLe b c = true → elemLe a c = true := by
+  simp only [elemLe, decide_eq_true_eq]; omega
+
+theorem elemLe_total (a b : AcqElement) : (elemLe a b || elemLe b a) = true := by
+  simp only [elemLe, Bool.or_eq_true, decide_eq_true_eq]; omega
+
+theorem sortElements_of_perm_strict (es sorted : List AcqElement) (hp : es.Perm sorted)
+    (hs : sorted.Pairwise (fun a b => a.mz < b.mz ∨ (a.mz = b.mz ∧ a.selected < b.selected))) :
+    sortElements es = sorted := by
+  rw [sortElements_eq]
+  apply Pew.SortAgilent.mergeSort_eq_of_perm_strict elemLe elemLe_trans elemLe_total es sorted hp
+  apply hs.imp
+  intro a b h
+  simp only [elemLe, decide_eq_true_eq, decide_eq_false_iff_not]
+  omega
 
 end Pew.Agilent
